@@ -135,7 +135,7 @@ def _mul_params(ctx):
     a = mk_field(ctx, 'a', 'array' if ctx.branch(ctx.fresh_bool('a_is_2d')) else 'scalar',
                  tilt=PyList([ctx.fresh_int('ta')]))
     b = mk_field(ctx, 'b', 'array' if ctx.branch(ctx.fresh_bool('b_is_2d')) else 'scalar',
-                 tilt=PyList([ctx.fresh_int('tb')]))
+                 tilt=PyList([ctx.fresh_int('tb')] if ctx.branch(ctx.fresh_bool('b_has_tilt')) else []))
     return {'self': a, 'other': b}
 
 
